@@ -395,18 +395,20 @@ def obligations(tier, seed):
                             keydetail="push-routing", replay=dict(scenario="c05_drop_full_queue", vars={}, fixed={"kind": "subscription"}, region=z3.BoolVal(True)), **common))
     d, viol, reach, ab = _notification_step(core)
     common = dict(bodies=sorted(d.ctx.encoded_bodies), extra={"models": T.CLIENT_DOC + MM.MAP_DOC})
-    if ab or not all(reach.values()):
+    reach_l = R.live_reach(viol, reach, ab)
+    if ab or not all(reach_l):
         out.append(R.Result(engine="mirsym", name="notify:handler", kind="kernel", status="unsupported" if ab else "vacuous", detail=str(ab[:1] or [k for k, v in reach.items() if not v])[:300], bodies=common["bodies"]))
     else:
-        out.append(R.decide("notify:handler-routing", "kernel", z3.Or(*viol) if viol else z3.BoolVal(False), [z3.Or(*v) for v in reach.values()],
+        out.append(R.decide("notify:handler-routing", "kernel", z3.Or(*viol) if viol else z3.BoolVal(False), [z3.Or(*v) for v in reach_l],
                             desc="a method notification is delivered to exactly the handler registered under that method name; a handler whose channel is closed or full is unregistered",
                             bounds="one registered handler, incoming method name arbitrary (equal or different)", keydetail="notify-routing", replay=dict(scenario="c05_drop_full_queue", vars={}, fixed={"kind": "handler"}, region=z3.BoolVal(True)), **common))
     d, viol, reach, ab = _unsubscribe_once(core)
     common = dict(bodies=sorted(d.ctx.encoded_bodies), extra={"models": T.CLIENT_DOC + MM.MAP_DOC})
-    if ab or not reach:
+    reach_l = R.live_reach(viol, reach, ab)
+    if ab or not reach_l[0]:
         out.append(R.Result(engine="mirsym", name="unsubscribe:once", kind="kernel", status="unsupported" if ab else "vacuous", detail=str(ab[:1])[:300], bodies=common["bodies"]))
     else:
-        out.append(R.decide("unsubscribe:exactly-one", "kernel", z3.Or(*[v if isinstance(v, z3.ExprRef) else z3.BoolVal(bool(v)) for v in viol]) if viol else z3.BoolVal(False), [z3.Or(*reach)],
+        out.append(R.decide("unsubscribe:exactly-one", "kernel", z3.Or(*[v if isinstance(v, z3.ExprRef) else z3.BoolVal(bool(v)) for v in viol]) if viol else z3.BoolVal(False), [z3.Or(*reach_l[0])],
                             desc="closing an active subscription builds one unsubscribe request, under the reserved request id, whose params are exactly that subscription id; "
                                  "asking again for the same subscription builds nothing", bounds="any pairwise-different u64 request ids, arbitrary subscription id",
                             keydetail="unsubscribe-once", **common))
@@ -418,19 +420,21 @@ def obligations(tier, seed):
                 r["status"] = "violated-duplicate"
             seen.add(r["key"])
     b, viol, reach, bad = _close_reason(core)
-    if bad or not all(reach.values()):
+    reach_l = R.live_reach(viol, reach, bad)
+    if bad or not all(reach_l):
         out.append(R.Result(engine="mirsym", name="kernel:Subscription::close_reason", kind="kernel", status="unsupported" if bad else "vacuous", detail=str(bad[:1] or {k: len(v) for k, v in reach.items()})[:300], bodies=[b.name]))
     else:
-        out.append(R.decide("kernel:Subscription::close_reason:lagged-wins", "kernel", z3.Or(*viol), [z3.Or(*v) for v in reach.values()], bodies=[b.name],
+        out.append(R.decide("kernel:Subscription::close_reason:lagged-wins", "kernel", z3.Or(*viol), [z3.Or(*v) for v in reach_l], bodies=[b.name],
                             desc="close_reason(): a subscription that fell behind its buffer is reported as Lagged - before and after the stream was polled to its end; ConnectionClosed only "
                                  "when it is closed and did not lag; None while open", bounds="has_lagged x is_closed", keydetail="close-reason",
                             replay=dict(scenario="c05_close_reason", vars={}, fixed={}, region=z3.BoolVal(True))))
     b, viol, reach, bad = _explicit_unsubscribe(core)
-    if bad or not reach:
+    reach_l = R.live_reach(viol, reach, bad)
+    if bad or not reach_l[0]:
         out.append(R.Result(engine="mirsym", name="order:Subscription::unsubscribe", kind="order", status="unsupported" if bad else "vacuous", detail=str(bad[:1])[:300], bodies=[b.name]))
     else:
         q = [v if isinstance(v, z3.ExprRef) else z3.BoolVal(bool(v)) for v in viol]
-        out.append(R.decide("order:Subscription::unsubscribe:awaits-queue-capacity", "order", z3.Or(*q) if q else z3.BoolVal(False), [z3.Or(*reach)], bodies=[b.name],
+        out.append(R.decide("order:Subscription::unsubscribe:awaits-queue-capacity", "order", z3.Or(*q) if q else z3.BoolVal(False), [z3.Or(*reach_l[0])], bodies=[b.name],
                             desc="an explicit unsubscribe hands its close message to the background task with the awaiting send (exactly once), never with try_send: a full request queue delays it, "
                                  "it cannot drop it", bounds="every path from the start of unsubscribe()", keydetail="explicit-unsubscribe",
                             replay=dict(scenario="c05_drop_full_queue", vars={}, fixed={"kind": "explicit"}, region=z3.BoolVal(True))))
